@@ -378,6 +378,11 @@ fn main() {
 				pairs.push(In::P(p as ValueType, v as ValueType));
 			}
 		}
+		// candles of EQUAL turnover (price x volume) and different volume - (1,4)/(0.5,8), (0.5,4)/(2,1) - and
+		// a zero price at two volumes: the numerator of the quotient stands still while the denominator moves
+		for (p, v) in [(0.5, 8.0), (2.0, 1.0), (0.0, 1.0), (0.0, 4.0)] {
+			pairs.push(In::P(p as ValueType, v as ValueType));
+		}
 		for n in 1..=(if thorough { 4 } else { 3 }) {
 			let sys = MSys {
 				name: format!("VWMA/depth/n={n}"),
@@ -400,7 +405,9 @@ fn main() {
 			spec: spec("VWMA"),
 			params: (1..=maxn).map(|n| Params::N(n as PeriodType)).collect(),
 			v0s: vec![In::P(1.0, 1.0), In::P(-3.0, 4.0)],
-			alphabet: vec![In::P(1.0, 1.0), In::P(-3.0, 4.0), In::P(0.5, 0.0), In::P(2.0, alpha::big() as ValueType)],
+			alphabet: vec![In::P(1.0, 1.0), In::P(-3.0, 4.0), In::P(0.5, 0.0), In::P(2.0, alpha::big() as ValueType),
+				// same turnover as the two flat candles, other volume
+				In::P(0.5, 2.0), In::P(-1.5, 8.0)],
 			mk_ref: mk_ref("VWMA"),
 			shape: Shape::Flat,
 			span: n_of,
